@@ -812,9 +812,9 @@ class Ext(Spec):
             return out[0]
         if not self.wellformed(c):
             return None
-        if self.known_behaviour(c, out):
-            return None
         st = c['stage']
+        if st != 'capture' and self.known_behaviour(c, out):       # capture: the late request is part of the law checked below
+            return None
         errs = [l for l in out if l.startswith('err')]
         if errs:
             return f'raised on a legal input: {errs[0]}'
